@@ -192,6 +192,12 @@ fn judge_av1c_bits(order: (u64, u64), t: &mut Tally) {
         SeqHdr { profile: 2, level: 13, high_bitdepth: true, twelve_bit: true, subx: false, suby: false, ..base.clone() }.normalised(),
         SeqHdr { profile: 2, level: 9, high_bitdepth: true, twelve_bit: true, subx: true, suby: true, csp: 1, ..base.clone() }.normalised(),
         SeqHdr { profile: 0, level: 0, color_desc: 1, ..base.clone() }.normalised(), // sRGB: 4:4:4
+        // scalable streams: av1C describes operating point 0, whatever the later points say
+        // (the writer gives later points another level and the opposite tier)
+        SeqHdr { level: 12, tier: true, op_count: 2, ..base.clone() }.normalised(),
+        SeqHdr { level: 9, tier: false, op_count: 3, ..base.clone() }.normalised(),
+        SeqHdr { level: 5, op_count: 2, ..base.clone() }.normalised(),
+        SeqHdr { level: 13, tier: true, op_count: 4, timing: true, decoder_model: true, op_decoder_model: true, ..base.clone() }.normalised(),
     ];
     for (k, h) in headers.iter().enumerate() {
         for fast in [true, false] {
@@ -293,7 +299,7 @@ pub fn check(ctx: &Ctx) -> i32 {
         &tally,
         Meta {
             level: "exploration",
-            rule: format!("{np} progressive files: the configuration space (4 codecs x {{none, 6 AAC profiles, Opus}} x fast start on/off x 5 metadata shapes) x dimensions {{320x240, 1920x1080, 4096x2160, 65535x65535}} x {{0, 1, 3}} frames{}, plus channels 1-8 x the standard sample rates below 65536 Hz for every audio kind; {nf} fragmented configurations (4 codecs x builder/FragmentConfig x dimensions x timescales x start DTS) with their init segment and two media segments. Every fixed-layout header box and configuration record is decoded field by field from ISO/IEC 14496-12/-14/-15 and the AV1 / VP9 / Opus bindings (size, version, flags, reserved bits) av1C bit positions are checked with seven sequence headers that set every field of its two packed bytes differently; and the configured dimensions, timescales, enabled flags, identity matrices, handler types and track IDs are recovered. Distinct by the reader-reduced moov.", if ctx.thorough { "" } else { " (metadata variants thinned in the quick tier)" }),
+            rule: format!("{np} progressive files: the configuration space (4 codecs x {{none, 6 AAC profiles, Opus}} x fast start on/off x 5 metadata shapes) x dimensions {{320x240, 1920x1080, 4096x2160, 65535x65535}} x {{0, 1, 3}} frames{}, plus channels 1-8 x the standard sample rates below 65536 Hz for every audio kind; {nf} fragmented configurations (4 codecs x builder/FragmentConfig x dimensions x timescales x start DTS) with their init segment and two media segments. Every fixed-layout header box and configuration record is decoded field by field from ISO/IEC 14496-12/-14/-15 and the AV1 / VP9 / Opus bindings (size, version, flags, reserved bits) av1C bit positions are checked with eleven sequence headers that set every field of its two packed bytes differently (four with 2-4 operating points whose later points carry another level and the opposite tier); and the configured dimensions, timescales, enabled flags, identity matrices, handler types and track IDs are recovered. Distinct by the reader-reduced moov.", if ctx.thorough { "" } else { " (metadata variants thinned in the quick tier)" }),
             bound: "configuration space as listed; 0/1/3 frames".into(),
             exhaustive: true,
             assumptions: vec!["the reader's field decoders are written from the specifications and are the trusted base".into(), "the optional High-profile extension of avcC is not demanded".into(), "for init segments the movie timescale is compared with the fragment timescale".into()],
